@@ -64,7 +64,7 @@ def floors(tier):
             "lazy_operands": 250 * k, "fused_operands": 250 * k, "fused_hard": 80 * k, "fused_meta": 80 * k,
             "nonzero_charge": 150 * k, "rectangular_sectors": 300 * k, "complex_operands": 250 * k,
             "nU_false": 80 * k, "sU_minus": 200 * k, "negative_axis_args": 150 * k, "axis_not_default": 300 * k,
-            "fix_signs_columns": 200 * k, "designed_spectrum": 150 * k, "compute_uv_false": 30 * k, "eig_biorthonormal_checked": 50 * k, "eig_nonnormal_scaled_inputs": 20 * k, "eig_directed_ill_conditioned": 1,
+            "fix_signs_columns": 200 * k, "designed_spectrum": 150 * k, "compute_uv_false": 30 * k, "eig_biorthonormal_checked": 50 * k, "eig_nonnormal_scaled_inputs": 20 * k, "eig_directed_ill_conditioned": 1, "sides_fused_differently": 60 * k, "sides_fused_differently:meta": 20 * k, "sides_fused_differently:hard+meta": 2 * k,
             "which:LM": 30 * k, "which:SM": 30 * k, "which:LR": 30 * k, "which:SR": 30 * k}
 
 
@@ -572,15 +572,78 @@ def hide_pairs(E, h, k):
     return hp, posL, posR
 
 
-def paired_operand(E, hp, posL, posR, count=True):
-    """Operand in which legs may be fused, the same way on both sides (so that the two groups stay conjugate)."""
+def _to_hard(tree):
+    return tree if isinstance(tree, int) else ("h", tuple(_to_hard(c) for c in tree[1]))
+
+
+def _hard_structure(trees):
+    """Native (hard) leg structure of one side: meta nodes are only syntax and are flattened away."""
+    out = []
+    for t in trees:
+        if isinstance(t, int) or t[0] == "h":
+            out.append(t)
+        else:
+            out.extend(_hard_structure(t[1]))
+    return tuple(out)
+
+
+def asym_fusion(rng, y, posL, posR):
+    """Row and column legs fused DIFFERENTLY.  Optional prelude: the same hard fusion on both sides; then 1-3 steps, each
+    regrouping the (current) legs of ONE side, meta or hard, possibly nested.  The flattened native order of the two sides stays
+    (L_i), (conj L_i), so sector matrices stay square.  A hard step turns all earlier meta fusions into (nested) hard ones.
+    returns (y, tops, number of row legs, levels, hard_symmetric) - hard_symmetric: the native hard-fused legs of the two sides
+    have the same fusion trees, i.e. the column legs are the conjugates of the row legs as yastn legs."""
+    k = len(posL)
+    tops = [(p,) for p in posL] + [(p,) for p in posR]
+    trees = list(range(k)) + list(range(k))
+    nL = k
+    cur = [t[0] for t in tops]            # leg indices of y for the first call (also permutes the native legs)
+    levels = []
+
+    def fuse(groups, mode, tag):
+        nonlocal y, tops, trees, cur
+        arg = tuple(tuple(cur[i] for i in g) if len(g) > 1 else cur[g[0]] for g in groups)
+        y = y.fuse_legs(axes=arg, mode=mode)
+        tops = [sum((tops[i] for i in g), ()) for g in groups]
+        trees = [trees[g[0]] if len(g) == 1 else (mode[0], tuple(trees[i] for i in g)) for g in groups]
+        if mode == "hard":
+            trees = [_to_hard(t) for t in trees]
+        cur = list(range(len(tops)))
+        levels.append((mode, tag, tuple(tops)))
+
+    if k >= 2 and rng.random() < 0.4:
+        ng = rng.randint(1, k - 1)
+        gs = F._split(rng, list(range(k)), ng) if ng > 1 else [tuple(range(k))]
+        fuse(list(gs) + [tuple(i + k for i in g) for g in gs], "hard", "both")
+        nL = len(gs)
+    for _ in range(rng.randint(1, 3)):
+        side = rng.choice("LR")
+        lo, hi = (0, nL) if side == "L" else (nL, len(tops))
+        if hi - lo < 2:
+            continue
+        ng = rng.randint(1, hi - lo - 1)
+        gs = F._split(rng, list(range(lo, hi)), ng) if ng > 1 else [tuple(range(lo, hi))]
+        fuse([(i,) for i in range(lo)] + list(gs) + [(i,) for i in range(hi, len(tops))], rng.choice(("meta", "meta", "meta", "hard")), side)
+        if side == "L":
+            nL = len(gs)
+    sym = _hard_structure(trees[:nL]) == _hard_structure(trees[nL:])
+    return y, tops, nL, levels, sym
+
+
+def paired_operand(E, hp, posL, posR, count=True, asym=False):
+    """Operand over legs (L_i), (conj L_i): fused the same way on both sides, or (asym) differently on the two sides."""
     rng = E.rng
     y, st = F.realize(hp, rng, E.cfg)
     k = len(posL)
-    tops_l, tops_r = [(p,) for p in posL], [(p,) for p in posR]
     levels = []
     fusion = rng.choice(("none", "none", "meta", "hard")) if k >= 2 else "none"
-    if fusion != "none":
+    if asym and k >= 2 and rng.random() < 0.6:
+        y, tops, nL, levels, hard_sym = asym_fusion(rng, y, posL, posR)
+        fusion = "asym" if levels else "none"
+        left, right = tuple(range(nL)), tuple(range(nL, len(tops)))
+    if fusion == "asym":
+        pass
+    elif fusion != "none":
         # fuse matching groups of the left and of the right legs: y legs become (gL1, gL2, ..., gR1, gR2, ...)
         m = rng.randint(1, k - 1) if k > 2 else 1
         groups = F._split(rng, list(range(k)), m) if m > 1 else [tuple(range(k))]
@@ -604,9 +667,31 @@ def paired_operand(E, hp, posL, posR, count=True):
         post = rng.choice(("lazy", "lazy", "consumed", "copy"))
         y = y.consume_transpose() if post == "consumed" else (y.copy() if post == "copy" else y)
     op = F.Operand(hp, y, tops, {"state": st, "fusion": levels, "post": post})
+    op.info["asym"] = fusion == "asym"
+    op.info["hard_symmetric"] = hard_sym if fusion == "asym" else True
     if count:
         count_paired(E, hp, op)
     return op, left, right
+
+
+def call_square(ctx, operand, fn):
+    """eig / eigh on an operand whose two sides may be fused differently.
+
+    Verdict-bearing: the native (hard-fused) legs of the column side are the conjugates of those of the row side, fusion trees
+    included; meta fusion on top may differ freely.  When the HARD fusion trees differ (e.g. ((a,b),c) against (a*,b*,c*)) the
+    column legs are not the conjugate legs in yastn's sense, a = U S U^+ cannot even be written with matching legs, and the
+    docstrings promise nothing: the library sometimes refuses ('Legs of effective square blocks do not match'), sometimes
+    decomposes the matrix taken in two differently ordered bases.  Those inputs are exercised, the outcome counted, not judged."""
+    if operand.info.get("hard_symmetric", True):
+        return fn()
+    try:
+        fn()
+        ctx.count("unjudged:hard_fusion_trees_differ:accepted")
+    except Exception as e:
+        if type(e).__name__ != "YastnError" or "square blocks do not match" not in str(e):
+            raise
+        ctx.count("unjudged:hard_fusion_trees_differ:refused")
+    return None
 
 
 def count_paired(E, hp, op):
@@ -615,7 +700,11 @@ def count_paired(E, hp, op):
         c.count("lazy_operands")
     if op.info["fusion"]:
         c.count("fused_operands")
-        c.count("fused_" + op.info["fusion"][0][0])
+        for lv in op.info["fusion"]:
+            c.count("fused_" + lv[0])
+        if op.info.get("asym") and op.info["hard_symmetric"] and any(lv[1] in ("L", "R") for lv in op.info["fusion"]):
+            c.count("sides_fused_differently")
+            c.count("sides_fused_differently:" + "+".join(sorted({lv[0] for lv in op.info["fusion"]})))
     if "complex" in hp.dtype:
         c.count("complex_operands")
 
@@ -628,13 +717,13 @@ def op_eigh(E):
     h, k = square_tensor(E, "herm")
     hp, posL, posR = hide_pairs(E, h, k)
     state = rng.getstate()
-    operand, left, right = paired_operand(E, hp, posL, posR, count=False)
+    operand, left, right = paired_operand(E, hp, posL, posR, count=False, asym=True)
     if kind != "herm" and hp.blocks:
         flatL, flatR = F.flat_axes(operand, left), F.flat_axes(operand, right)
         hp = F.square_psd(hp, flatL, flatR) if kind == "psd" else F.redesign_eigh(rng, hp, flatL, flatR, False)
         E.rng = random.Random()
         E.rng.setstate(state)
-        operand, left, right = paired_operand(E, hp, posL, posR, count=False)
+        operand, left, right = paired_operand(E, hp, posL, posR, count=False, asym=True)
         E.rng = rng
         ctx.count("designed_spectrum", int(kind == "designed"))
     count_paired(E, hp, operand)
@@ -649,7 +738,13 @@ def op_eigh(E):
     E.count_axis((Uaxis, -1))
     ctx.count("sU_minus", int(sU == -1))
     ctx.count("which:" + which)
-    S, U = operand.y.eigh(**kw) if rng.random() < 0.3 else yastn.eigh(operand.y, **kw)
+    method = rng.random() < 0.3
+    res = call_square(ctx, operand, lambda: operand.y.eigh(**kw) if method else yastn.eigh(operand.y, **kw))
+    if res is None:
+        ctx.count("op:eigh")
+        ctx.case(("eigh-refused", operand.sig()), False)
+        return
+    S, U = res
     w = wit(E, "eigh", hp, operand, params)
     flatL, flatR = F.flat_axes(operand, left), F.flat_axes(operand, right)
     n0 = G.zero(E.sym)
@@ -690,7 +785,7 @@ def op_eig(E):
         h = F.similarity_scale(rng, h, k)
         ctx.count("eig_nonnormal_scaled_inputs")
     hp, posL, posR = hide_pairs(E, h, k)
-    operand, left, right = paired_operand(E, hp, posL, posR)
+    operand, left, right = paired_operand(E, hp, posL, posR, asym=True)
     axes = F.axes_arg(rng, left, right)
     sU, nU, which = rng.choice((1, -1)), rng.choice((True, False)), rng.choice(("SR", "LR", "LM", "SM"))
     Uaxis, Vaxis = F.rand_axis(rng, len(left) + 1), F.rand_axis(rng, len(right) + 1)
@@ -706,7 +801,7 @@ def op_eig(E):
         # repeated eigenvalues of a non-Hermitian sector: LAPACK may return dependent eigenvectors and the library then gives
         # up with ValueError; not in the verdict-bearing domain (see ASSUMPTIONS), the outcome is counted
         try:
-            U, S, V = operand.y.eig(**kw) if method else yastn.eig(operand.y, **kw)
+            res = call_square(ctx, operand, lambda: operand.y.eig(**kw) if method else yastn.eig(operand.y, **kw))
         except ValueError as e:
             if "Biorthonormalization" not in str(e):
                 raise
@@ -716,7 +811,7 @@ def op_eig(E):
             return
     else:
         try:
-            U, S, V = operand.y.eig(**kw) if method else yastn.eig(operand.y, **kw)
+            res = call_square(ctx, operand, lambda: operand.y.eig(**kw) if method else yastn.eig(operand.y, **kw))
         except ValueError as e:
             if "Biorthonormalization" not in str(e):
                 raise
@@ -735,6 +830,11 @@ def op_eig(E):
             ctx.count("op:eig")
             ctx.case(("eig-rejected", operand.sig()), False)
             return
+    if res is None:
+        ctx.count("op:eig")
+        ctx.case(("eig-refused", operand.sig()), False)
+        return
+    U, S, V = res
     check_usv(E, "eig", hp, operand, left, right, U, S, V, sU, nU, Uaxis, Vaxis, "eig", which, params)
     if rng.random() < 0.3:
         w = wit(E, "eig", hp, operand, params)
@@ -838,6 +938,13 @@ def canaries(ctx):
     blk3 = blk.copy(); blk3[1, 1] = -1.0
     upper_triangular(sub, "qr", blk3, 1e-12, "canary", w)
     ctx.canary("R-negative-diagonal", fired("qr:R-diagonal-sign"))
+    # grouping of the outer legs: a meta-fused factor observed against the wrong grouping must be refused
+    yf = operand.y.fuse_legs(axes=((0, 1), 2), mode="meta")
+    Uf, Sf_, Vf = yastn.svd(yf, axes=(0, 1))
+    good, _, _ = F.observe_factor(Uf, -1, [(0, 1)], [ht.legs[0], ht.legs[1]], Uf.get_legs(1))
+    bad, _, _ = F.observe_factor(Uf.unfuse_legs(axes=0), -1, [(0, 1)], [ht.legs[0], ht.legs[1]], Uf.get_legs(1))
+    bad2, _, _ = F.observe_factor(Uf.unfuse_legs(axes=0).fuse_legs(axes=(0, (1, 2)), mode="meta"), 0, [(0,), (1,)], [ht.legs[0], ht.legs[1]], Uf.get_legs(1))
+    ctx.canary("leg-grouping", good is None and bad is not None and bad2 is not None)
     ctx.canary("order-oracle", (not order_ok(np.array([1.0, 2.0]), "LM", 1.0)) and order_ok(np.array([1.0, 2.0]), "SR", 1.0)
                and (not order_ok(np.array([-3.0, 1.0]), "SM", 1.0)) and order_ok(np.array([2.0, -3.0]), "LR", 1.0))
     ctx.canary("multiset-oracle", match_multiset([1, 2, 3], [3, 1, 2]) == 0 and match_multiset([1, 2], [1, 2.5]) == 0.5
